@@ -147,11 +147,22 @@ Proof.
     destruct track; cbn [fst]; (eapply Inv_flow; [exact Hi|reflexivity|reflexivity|reflexivity|exact Hf']).
   - destruct h; try exact Hi.
     destruct (call_write_body c input cap) as [[[c' u] o]|e|p]; cbn [fst]; try exact Hi.
-    destruct track; cbn [fst]; (eapply Inv_noflow; [exact Hi|reflexivity|cbn; discriminate]).
+    + destruct track; cbn [fst]; (eapply Inv_noflow; [exact Hi|reflexivity|cbn; discriminate]).
+    + apply Inv_call; exact Hi.
 Qed.
 
 Lemma facts_new_base r g : req_h10 r = h10 g -> req_ccl r = ccl g -> facts_new r = facts_base g.
 Proof. intros H1 H2. unfold facts_new, facts_base. rewrite H1, H2. reflexivity. Qed.
+
+(** The arms of [step] for the single call past the request: the object stays a call or is gone. *)
+Ltac call_arms Hi :=
+  unfold do_call_into_receive;
+  repeat match goal with
+  | |- context [match into_receive ?c with _ => _ end] => destruct (into_receive c)
+  | |- context [match c_reader ?c with _ => _ end] => destruct (c_reader c) as [[| | |]|]
+  | |- context [match call_try_response ?c ?b with _ => _ end] => destruct (call_try_response c b) as [[? ?]|?|?]
+  | |- context [match call_read ?c ?b ?cap with _ => _ end] => destruct (call_read c b cap) as [[[? ?] ?]|?|?]
+  end; cbn [fst]; first [exact Hi | apply Inv_call; exact Hi | apply Inv_none; exact Hi].
 
 Lemma step_inv s g o : Inv s g -> Inv (fst (step s o)) (gstep s g o).
 Proof.
@@ -171,14 +182,14 @@ Proof.
     destruct (s_obj s) as [|t f|h c] eqn:Ho; [| destruct t | destruct h]; cbn [fst]; try exact Hi.
     eapply upd_inv; [exact Hi|exact Ho|]. intros a Ha. eapply send_body_despite_method_keeps; exact Ha.
   - (* OProceed *)
-    destruct (s_obj s) as [|t f|h c] eqn:Ho; [exact Hi| |exact Hi].
+    destruct (s_obj s) as [|t f|h c] eqn:Ho; [exact Hi| |destruct h; call_arms Hi].
     pose proof (do_proceed_inv s g t f Hi Ho) as H. destruct t; exact H.
   - (* OPremature *)
     destruct (s_obj s) as [|t f|h c] eqn:Ho; [exact Hi| |exact Hi]. apply do_premature_inv; exact Hi.
   - (* OWriteHead *)
     destruct (s_obj s) as [|t f|h c] eqn:Ho; [| destruct t | destruct h]; cbn [fst]; try exact Hi.
     + eapply upd_inv; [exact Hi|exact Ho|]. intros [a o] Ha. eapply send_request_write_keeps; exact Ha.
-    + destruct (call_write_nobody c cap) as [[c' out]|e|p]; cbn [fst]; try exact Hi. apply Inv_call; exact Hi.
+    + destruct (call_write_nobody c cap) as [[c' out]|e|p]; cbn [fst]; try exact Hi; apply Inv_call; exact Hi.
   - destruct (s_obj s) as [|t f|h c] eqn:Ho; [| destruct t | destruct h]; apply do_write_body_inv; exact Hi.
   - destruct (s_obj s) as [|t f|h c] eqn:Ho; [| destruct t | destruct h]; apply do_write_body_inv; exact Hi.
   - destruct (s_obj s) as [|t f|h c] eqn:Ho; [| destruct t | destruct h]; apply do_write_body_inv; exact Hi.
@@ -198,15 +209,18 @@ Proof.
     destruct (s_obj s) as [|t f|h c] eqn:Ho; [| destruct t | destruct h]; cbn [fst]; try exact Hi.
     apply (do_try_response_inv s g f (window s) true); assumption.
   - destruct (s_obj s) as [|t f|h c] eqn:Ho; [| destruct t | destruct h]; cbn [fst]; try exact Hi.
-    apply (do_try_response_inv s g f w false); assumption.
+    + apply (do_try_response_inv s g f w false); assumption.
+    + call_arms Hi.
   - (* ORead *)
     destruct (s_obj s) as [|t f|h c] eqn:Ho; [| destruct t | destruct h]; cbn [fst]; try exact Hi.
     apply do_read_inv; assumption.
   - destruct (s_obj s) as [|t f|h c] eqn:Ho; [| destruct t | destruct h]; cbn [fst]; try exact Hi.
-    apply do_read_inv; assumption.
+    + apply do_read_inv; assumption.
+    + call_arms Hi.
   - (* OStop *)
     destruct (s_obj s) as [|t f|h c] eqn:Ho; [| destruct t | destruct h]; cbn [fst]; try exact Hi.
-    eapply upd_inv; [exact Hi|exact Ho|]. intros a Ha. eapply recv_body_stop_keeps; exact Ha.
+    + eapply upd_inv; [exact Hi|exact Ho|]. intros a Ha. eapply recv_body_stop_keeps; exact Ha.
+    + apply Inv_call; exact Hi.
   - (* OAsNewFlow *)
     destruct (s_obj s) as [|t f|h c] eqn:Ho; [| destruct t | destruct h]; cbn [fst]; try exact Hi.
     destruct (as_new_flow f p) as [[f' nxt]|e|pn] eqn:E; cbn [fst]; try exact Hi.
